@@ -60,4 +60,4 @@ def replay(path):
 MANIFEST = dict(engine='sched (race mode) + TSan', level='model_checking',
   technique='systematic enumeration of the interleavings of operation pairs on the real code under a scheduler that is invisible to the race detector; the Go race detector decides raciness of each enumerated happens-before relation',
   text='Every pair of operations that the running system executes concurrently (state-machine side x HTTP side, HTTP x HTTP) runs on a shared two-session state under every schedule of their lock operations with at most 1 (quick) / 2 (thorough) preemptions; the locks are the real ones (the scheduler shim only decides who goes next and forwards), so each schedule yields one happens-before relation and the race detector reports unsynchronised conflicting accesses of that relation.',
-  note='Limits: TSan access history, GOMAXPROCS=1, operations on one fixture shape; the expiry sweep and restore wiring inside main() are represented by the calls they make (ExpireSessions, ReplaceState).')
+  note='Limits: TSan access history, GOMAXPROCS=1, operations on one fixture shape; the expiry sweep and restore wiring inside main() are represented by the calls they make (ExpireSessions, ReplaceState). Fixture with a services link; the real POST handler and Apply(SERVER) are among the operations.')
